@@ -107,7 +107,10 @@ def lookalike(rng, value, depth=0):
             return True
         if value == 0 and rng.random() < 0.5:
             return False
-        return float(value)
+        try:
+            return float(value)
+        except OverflowError:
+            return -value
     if isinstance(value, float):
         if value == 1.0 and rng.random() < 0.4:
             return True
